@@ -17,6 +17,7 @@ package main
 // request multiset is flushed, so that tools/props/C16.py can report the trial in flight when the process dies.
 
 import (
+	"context"
 	"encoding/json"
 	"fmt"
 	"io"
@@ -113,6 +114,7 @@ type c16Req struct {
 	Sets   [][2]int `json:"sets,omitempty"`  // set: (action index, 0/1) in application order
 	Flags  []int    `json:"flags,omitempty"` // rep: the whole action set
 	Idxs   []int    `json:"idxs,omitempty"`  // get: which actions the response shows
+	Gone   int      `json:"gone,omitempty"`  // the client goes away: 1 = its context is already cancelled when the request is served, 2 = cancelled shortly after (the engine's handlers do not look at the context: the request is served all the same)
 	Class  string   `json:"class"`
 }
 
@@ -121,6 +123,16 @@ func (e *c16Engine) do(r c16Req, who string) (status int, body string) {
 	req.RemoteAddr = who
 	if r.CT != "" {
 		req.Header.Add("Content-Type", r.CT)
+	}
+	if r.Gone != 0 {
+		ctx, cancel := context.WithCancel(req.Context())
+		defer cancel()
+		req = req.WithContext(ctx)
+		if r.Gone == 1 {
+			cancel()
+		} else {
+			go func() { time.Sleep(20 * time.Microsecond); cancel() }()
+		}
 	}
 	w := httptest.NewRecorder()
 	e.mux.ServeHTTP(w, req)
@@ -530,6 +542,9 @@ func c16Batch(p *prng, n int, noProbe bool) ([]c16Req, string) {
 		}
 		if c16ProbeKind != "" && !noProbe && p.chance(0.06) {
 			r = c16ProbeReq(c16PUs[p.intn(len(c16PUs))])
+		}
+		if p.chance(0.12) {
+			r.Gone = 1 + p.intn(2)
 		}
 		reqs = append(reqs, r)
 	}
